@@ -34,6 +34,7 @@ type c13Case struct {
 	Extras  []string  `json:"extras,omitempty"`   // non-sample files (other suffixes)
 	DirBin  string    `json:"dir_bin,omitempty"`  // a directory whose name ends in .bin / .dat
 	Workers int       `json:"workers"`
+	Race    bool      `json:"race,omitempty"` // run the binary / shim built with the race detector
 	Procs   int       `json:"gomaxprocs,omitempty"`
 }
 
@@ -185,8 +186,9 @@ func newScratch(prefix string) string {
 	return d
 }
 
-func shimCall(env ...string) ([]byte, error) {
-	bin := os.Getenv("VERIF_BIN_SHIM")
+func shimCall(env ...string) ([]byte, error) { return shimCallBin(os.Getenv("VERIF_BIN_SHIM"), env...) }
+
+func shimCallBin(bin string, env ...string) ([]byte, error) {
 	if bin == "" {
 		return nil, fmt.Errorf("VERIF_BIN_SHIM not set")
 	}
@@ -450,7 +452,15 @@ func checkC13(c c13Case) (Outcome, error) {
 		for _, f := range c.Files {
 			paths = append(paths, filepath.Join(in, f.Path))
 		}
-		b, err := shimCall("VERIF_SHIM=worker", "VERIF_SHIM_SCALE=1E8", fmt.Sprintf("VERIF_SHIM_WORKERS=%d", c.Workers), "VERIF_SHIM_FILES="+strings.Join(paths, ":"))
+		shimBin := os.Getenv("VERIF_BIN_SHIM")
+		if c.Race {
+			shimBin = os.Getenv("VERIF_BIN_SHIM_RACE")
+			out.Classes = append(out.Classes, "race-detector-build")
+		}
+		b, err := shimCallBin(shimBin, "VERIF_SHIM=worker", "VERIF_SHIM_SCALE=1E8", fmt.Sprintf("VERIF_SHIM_WORKERS=%d", c.Workers), "VERIF_SHIM_FILES="+strings.Join(paths, ":"))
+		if err != nil && strings.Contains(err.Error(), "DATA RACE") {
+			return out, violation("race:1E8", "worker_1E8 (%d files, %d workers): the race detector reports a data race:\n%s", len(paths), c.Workers, clip(err.Error(), 1800))
+		}
 		if err != nil {
 			return out, violation("worker-crash:1E8", "worker_1E8 on %d files crashed: %v", len(paths), err)
 		}
@@ -492,7 +502,17 @@ func checkC13(c c13Case) (Outcome, error) {
 	if c.Scale == "1E6" {
 		budget = time.Duration(2+len(c.Files)) * 2 * time.Minute
 	}
-	pr := runTool(dir, budget, c.Procs, "", os.Getenv("VERIF_BIN_RDDETECTOR"), "-i", in, "-o", rep, "-n", strconv.Itoa(c.Workers))
+	tool := os.Getenv("VERIF_BIN_RDDETECTOR")
+	if c.Race {
+		tool = os.Getenv("VERIF_BIN_RDDETECTOR_RACE")
+		budget *= 8
+		out.Classes = append(out.Classes, "race-detector-build")
+	}
+	pr := runTool(dir, budget, c.Procs, "", tool, "-i", in, "-o", rep, "-n", strconv.Itoa(c.Workers))
+	if strings.Contains(pr.stderr, "WARNING: DATA RACE") {
+		i := strings.Index(pr.stderr, "WARNING: DATA RACE")
+		return out, violation("race:"+c.Scale, "rddetector (%s, %d files, %d workers): the race detector reports a data race:\n%s", c.Scale, len(c.Files), c.Workers, clip(pr.stderr[i:], 1800))
+	}
 	if pr.stuck {
 		if pr.deadlock {
 			return out, violation("no-termination", "rddetector (%s, %d files, %d workers) does not terminate: every goroutine is blocked\n%s", c.Scale, len(c.Files), c.Workers, clip(pr.stderr, 2500))
@@ -552,7 +572,7 @@ func genC13(t *rapid.T) c13Case {
 	case "1E8hdr":
 		maxFiles = 2
 	}
-	nf := rapid.IntRange(1, maxFiles).Draw(t, "files")
+	nf := rapid.IntRange(max(1, min(envInt("VERIF_MINFILES", 1), maxFiles)), maxFiles).Draw(t, "files")
 	dirs := []string{"", "", "a", "a/b", "a/b/c", "x"}
 	seen := map[string]bool{}
 	for i := 0; i < nf; i++ {
@@ -586,6 +606,10 @@ func genC13(t *rapid.T) c13Case {
 		c.Workers = rapid.IntRange(1, 4).Draw(t, "workers")
 	}
 	c.Procs = rapid.SampledFrom([]int{1, 2, 16}).Draw(t, "gomaxprocs")
+	if v := envInt("VERIF_WORKERS", 0); v > 0 { // shards that pin "one worker, several files" (a worker handles consecutive files)
+		c.Workers = v
+	}
+	c.Race = envInt("VERIF_RACE_BIN", 0) == 1
 	return c
 }
 
